@@ -670,8 +670,8 @@ Definition find_eq_old (fuel : nat) (oracle : qkey -> option bool) : eoutcome :=
   | Err e => EOut (Failed e) []
   end.
 
-(* ---------------------------------------------------------------- proposed repair of F-C13e
-   findings/eqpath_unvalidated_child_paths.diff overrides _maps_are_matched in EqPathParallelSpecFinder:
+(* ---------------------------------------------------------------- the repair of F-C13e (fix 8a96a0c, in /repo)
+   EqPathParallelSpecFinder overrides _maps_are_matched (was findings/eqpath_unvalidated_child_paths.diff):
    after the walk above, a second walk over the (parent pair -> child pair) edges of the two maps asks
    _eq_path_matches (fresh cache) for every pair of children under the pair of parents it is reached from.
    Elements of the stack: (pair, parent pair shifted by one as in search_eq).  The real `seen` also holds
@@ -729,7 +729,8 @@ Definition path_checked (m : minfo) (wfuel : nat) (oracle : qkey -> option bool)
   | o => (o, [])
   end.
 
-(* pw = false: the code as it is; pw = true: with the proposed repair of F-C13e.
+(* pw = true: the code as it is (since fix 8a96a0c); pw = false: the code before that fix (history; no case of
+   the harness runs it).  What pw = true adds is a theorem: Parallel/EqSound.v (find_eq_edges_checked).
    oracle answers _eq_path_matches during the search (partial label maps), woracle during the second walk
    (fresh cache, final label maps: the same key may get another answer) *)
 Definition find_eq (pw : bool) (fuel wfuel : nat) (oracle woracle : qkey -> option bool) : eoutcome :=
